@@ -2918,8 +2918,10 @@ fn generate_constraints_expr(
                             func,
                             args,
                             expr,
-                            node_ty,
+                            node_ty.clone(),
                         );
+                        // the call's type still has to meet the type expected by the context
+                        handle_ana(ctx, mode, node_ty);
                         return;
                     }
                     match ctx.resolution_map.get(&fname.id).cloned() {
